@@ -7,7 +7,10 @@
   are modelled exactly.
 -/
 import ConnectModel.Proto
+import ConnectProofs.C01
+import ConnectProofs.Lemmas.Toy
 import ConnectProofs.Lemmas.Header
+import ConnectProofs.Lemmas.Sanitize
 import ConnectProofs.Lemmas.Dec
 import ConnectProofs.C18
 
@@ -159,6 +162,205 @@ theorem connect_stream_error_roundtrip (c : HConn) (cfg : CCfg) (p : HProg) (e :
   simp only [recvItems, hproto, if_true, List.append_nil, fixCode, h0, if_false]
   exact ⟨trivial, _, rfl⟩
 
+/-! ### a whole gRPC call: handler side composed with client side -/
+
+theorem vals_copy (h : Header) (hw : h.wf) (k : Bytes) : (mergeHeaders [] h).vals k = h.vals k := by
+  rw [vals_mergeHeaders _ _ hw]; simp [Header.vals]
+
+/-- the verdict only looks at the first value of three keys: copying the map does not change it -/
+theorem verdict_copy (dec : Bytes → Option WireErr) (t : Header) (hw : t.wf) :
+    grpcErrorFromTrailer dec (mergeHeaders [] t) = grpcErrorFromTrailer dec t := by
+  have hg : ∀ k, (mergeHeaders [] t).get k = t.get k := fun k => by simp only [Header.get, vals_copy t hw]
+  unfold grpcErrorFromTrailer
+  simp only [hg]
+
+theorem grpcTrailers_wf (enc : WireErr → Bytes) (t : Header) (r : Option GoErr) : (grpcTrailers enc t r).wf := by
+  unfold grpcTrailers
+  cases r with
+  | none => exact Header.set_wf _ _ _ (Header.set_wf _ _ _ (mergeHeaders_wf _ _ Header.nil_wf))
+  | some e =>
+    simp only
+    exact Header.set_wf _ _ _ (Header.set_wf _ _ _ (Header.set_wf _ _ _ (mergeHeaders_wf _ _ (mergeHeaders_wf _ _ Header.nil_wf))))
+
+/-- **grpc_call_roundtrip**: a gRPC handler (identity response compression) sends `p.sends` and
+    finishes with `p.result`; the gRPC client receives exactly those messages in order, then
+    success if the handler succeeded and otherwise an error with the handler's code, message
+    and details. -/
+theorem grpc_call_roundtrip (enc : WireErr → Bytes) (dec : Bytes → Option WireErr) (hc : StatusCodec enc dec)
+    (c : HConn) (cfg : CCfg) (p : HProg)
+    (hproto : cfg.proto = .grpc) (hmax : cfg.max = 0) (hpool : c.pool = none)
+    (hid : c.respCompression = Gen.compressionIdentity)
+    (hH : p.header.wf) (hHs : p.header.vals Gen.hdrGrpcStatus = []) (hHe : p.header.vals Gen.hdrGrpcEncoding = []) :
+    (clientGrpc dec cfg (serveGrpc enc false c p)).msgs = p.sends ∧
+    (p.result = none → (clientGrpc dec cfg (serveGrpc enc false c p)).result = none) ∧
+    (∀ e, p.result = some (.coded e) → e.code ≠ 0 → e.code < 2 ^ 32 →
+      ∃ md, (clientGrpc dec cfg (serveGrpc enc false c p)).result =
+        some { code := e.code, msg := e.msg, details := e.details, md := md }) := by
+  have hstatus : (serveGrpc enc false c p).status = 200 := by simp [serveGrpc]
+  have hhdr : (serveGrpc enc false c p).header =
+      mergeHeaders [(Gen.hdrContentType, [c.contentType]), (Gen.hdrGrpcAcceptEncoding, [c.names])] p.header := by
+    simp [serveGrpc, hid]
+  have hbody : (serveGrpc enc false c p).body = p.sends.map (BodyItem.frame 0) := by
+    simp only [serveGrpc, Bool.false_eq_true, if_false]
+    apply List.map_congr_left
+    intro m _
+    simp [msgFrame, hpool]
+  have htr : (serveGrpc enc false c p).trailer = grpcTrailers enc p.trailer p.result := by simp [serveGrpc]
+  obtain ⟨d1, d2, d3⟩ := hdr_keys_distinct
+  have hgetS : (serveGrpc enc false c p).header.get Gen.hdrGrpcStatus = [] := by
+    have n1 : Gen.hdrGrpcStatus ≠ Gen.hdrContentType := by decide
+    have n2 : Gen.hdrGrpcStatus ≠ Gen.hdrGrpcAcceptEncoding := by decide
+    rw [hhdr]; simp only [Header.get, vals_mergeHeaders _ _ hH, hHs]
+    simp [Header.vals, n1, n2]
+  have hgetE : (serveGrpc enc false c p).header.get Gen.hdrGrpcEncoding = [] := by
+    have n1 : Gen.hdrGrpcEncoding ≠ Gen.hdrContentType := by decide
+    have n2 : Gen.hdrGrpcEncoding ≠ Gen.hdrGrpcAcceptEncoding := by decide
+    rw [hhdr]; simp only [Header.get, vals_mergeHeaders _ _ hH, hHe]
+    simp [Header.vals, n1, n2]
+  have hverdictH : grpcErrorFromTrailer dec (serveGrpc enc false c p).header = .missing := by
+    simp only [grpcErrorFromTrailer, hgetS, if_true]
+  have hmergedS : (mergeHeaders [] (serveGrpc enc false c p).header).get Gen.hdrGrpcStatus = [] := by
+    have hw : (serveGrpc enc false c p).header.wf := by
+      rw [hhdr]; apply mergeHeaders_wf; simp [Header.wf]; decide
+    simp only [Header.get, vals_copy _ hw]
+    exact hgetS
+  have hk : encodingKnown cfg [] = true := by simp [encodingKnown]
+  have hweb : ¬ (cfg.proto = Proto.grpcWeb) := by rw [hproto]; decide
+  have hrecv : recvItems cfg (encodingPool cfg []) (p.sends.map (BodyItem.frame 0)) = (p.sends, .cleanEOF) := by
+    have := recvItems_plain cfg (encodingPool cfg []) hmax p.sends []
+    simpa [recvItems] using this
+  have hvc := verdict_copy dec _ (grpcTrailers_wf enc p.trailer p.result)
+  refine ⟨?_, ?_, ?_⟩
+  · simp only [clientGrpc, hstatus, ne_eq, not_true_eq_false, if_false, hgetE, hk, Bool.not_true, Bool.false_eq_true,
+      hverdictH, hmergedS, hbody, hrecv, htr, hweb, hvc]
+    cases grpcErrorFromTrailer dec (grpcTrailers enc p.trailer p.result) <;> simp
+  · intro hr
+    rw [hr] at hvc
+    simp only [clientGrpc, hstatus, ne_eq, not_true_eq_false, if_false, hgetE, hk, Bool.not_true, Bool.false_eq_true,
+      hverdictH, hmergedS, hbody, hrecv, htr, hweb, hvc, hr, grpc_ok_trailer]
+    simp
+  · intro e hr h0 h32
+    rw [hr] at hvc
+    simp only [clientGrpc, hstatus, ne_eq, not_true_eq_false, if_false, hgetE, hk, Bool.not_true, Bool.false_eq_true,
+      hverdictH, hmergedS, hbody, hrecv, htr, hweb, hvc, hr, grpc_error_roundtrip enc dec hc p.trailer e h0 h32]
+    exact ⟨_, rfl⟩
+/-- what a conforming client recovers from the frames a handler wrote, with or without response
+    compression, thresholds included: exactly the payloads, in order -/
+theorem recvItems_msgFrames (cfg : CCfg) (c : HConn) (hmax : cfg.max = 0)
+    (hl : ∀ z, c.pool = some z → C01.CompLaws z) (sends : List Bytes) (rest : List BodyItem) :
+    recvItems cfg c.pool (sends.map (msgFrame c) ++ rest) =
+      (sends ++ (recvItems cfg c.pool rest).1, (recvItems cfg c.pool rest).2) := by
+  induction sends with
+  | nil => simp
+  | cons m ms ih =>
+    simp only [List.map_cons, List.cons_append]
+    have h00 : ((0 : UInt8).toNat = 0 ∨ (0 : UInt8).toNat = 1) := Or.inl rfl
+    have h01 : ¬ ((0 : UInt8).toNat = 1) := by decide
+    have h10 : ((1 : UInt8).toNat = 0 ∨ (1 : UInt8).toNat = 1) := Or.inr rfl
+    have h11 : ((1 : UInt8).toNat = 1) := by decide
+    have plain : recvItems cfg c.pool (BodyItem.frame 0 m :: (ms.map (msgFrame c) ++ rest)) =
+        (m :: (ms ++ (recvItems cfg c.pool rest).1), (recvItems cfg c.pool rest).2) := by
+      simp only [recvItems, h00, if_true, hmax, h01, if_false, ih]
+      by_cases hlen : m.length = 0
+      · have : m = [] := List.eq_nil_of_length_eq_zero hlen
+        subst this; simp
+      · have hgt : ¬ ((0 : Nat) > 0 ∧ m.length > 0) := by omega
+        simp [hlen, hgt]
+    cases hp : c.pool with
+    | none =>
+      rw [hp] at plain
+      simpa [msgFrame, hp] using plain
+    | some z =>
+      have laws := hl z hp
+      rw [hp] at plain ih
+      by_cases hmin : (m.length : Int) < c.minBytes
+      · simpa [msgFrame, hp, hmin] using plain
+      · simp only [msgFrame, hp, hmin, if_false, recvItems, h10, if_true, hmax, h11, ih]
+        by_cases hlen : (z.compress m).length = 0
+        · have hz : z.compress m = [] := List.eq_nil_of_length_eq_zero hlen
+          have : m = [] := laws.nonempty m hz
+          subst this; simp [hlen]
+        · have hgt : ¬ ((0 : Nat) > 0 ∧ (z.compress m).length > 0) := by omega
+          simp [hlen, hgt, decompressLimited, laws.roundtrip]
+
+/-- **grpc_call_roundtrip_compressed**: as `grpc_call_roundtrip`, for any response compression
+    the two sides agree on (the client resolves the `Grpc-Encoding` header to the algorithm the
+    handler used), any `compressMinBytes` threshold and any law-abiding compressor. -/
+theorem grpc_call_roundtrip_compressed (enc : WireErr → Bytes) (dec : Bytes → Option WireErr) (hc : StatusCodec enc dec)
+    (c : HConn) (cfg : CCfg) (p : HProg)
+    (hproto : cfg.proto = .grpc) (hmax : cfg.max = 0) (hl : ∀ z, c.pool = some z → C01.CompLaws z)
+    (hknown : encodingKnown cfg ((serveGrpc enc false c p).header.get Gen.hdrGrpcEncoding) = true)
+    (hagree : encodingPool cfg ((serveGrpc enc false c p).header.get Gen.hdrGrpcEncoding) = c.pool)
+    (hH : p.header.wf) (hHs : p.header.vals Gen.hdrGrpcStatus = []) :
+    (clientGrpc dec cfg (serveGrpc enc false c p)).msgs = p.sends ∧
+    (p.result = none → (clientGrpc dec cfg (serveGrpc enc false c p)).result = none) ∧
+    (∀ e, p.result = some (.coded e) → e.code ≠ 0 → e.code < 2 ^ 32 →
+      ∃ md, (clientGrpc dec cfg (serveGrpc enc false c p)).result =
+        some { code := e.code, msg := e.msg, details := e.details, md := md }) := by
+  have hstatus : (serveGrpc enc false c p).status = 200 := by simp [serveGrpc]
+  have hbody : (serveGrpc enc false c p).body = p.sends.map (msgFrame c) := by simp [serveGrpc]
+  have htr : (serveGrpc enc false c p).trailer = grpcTrailers enc p.trailer p.result := by simp [serveGrpc]
+  have n1 : Gen.hdrGrpcStatus ≠ Gen.hdrContentType := by decide
+  have n2 : Gen.hdrGrpcStatus ≠ Gen.hdrGrpcAcceptEncoding := by decide
+  have n3 : Gen.hdrGrpcStatus ≠ Gen.hdrGrpcEncoding := by decide
+  have hvalsS : (serveGrpc enc false c p).header.vals Gen.hdrGrpcStatus = [] := by
+    simp only [serveGrpc, Bool.false_eq_true, if_false, vals_mergeHeaders _ _ hH, hHs]
+    split <;> simp [Header.vals, n1, n2, n3]
+  have hgetS : (serveGrpc enc false c p).header.get Gen.hdrGrpcStatus = [] := by simp [Header.get, hvalsS]
+  have hverdictH : grpcErrorFromTrailer dec (serveGrpc enc false c p).header = .missing := by
+    simp only [grpcErrorFromTrailer, hgetS, if_true]
+  have hw : (serveGrpc enc false c p).header.wf := by
+    simp only [serveGrpc, Bool.false_eq_true, if_false]
+    apply mergeHeaders_wf
+    split <;> simp [Header.wf] <;> decide
+  have hmergedS : (mergeHeaders [] (serveGrpc enc false c p).header).get Gen.hdrGrpcStatus = [] := by
+    simp only [Header.get, vals_copy _ hw]; exact hgetS
+  have hweb : ¬ (cfg.proto = Proto.grpcWeb) := by rw [hproto]; decide
+  have hrecv : recvItems cfg c.pool (p.sends.map (msgFrame c)) = (p.sends, .cleanEOF) := by
+    have := recvItems_msgFrames cfg c hmax hl p.sends []
+    simpa [recvItems] using this
+  have hvc := verdict_copy dec _ (grpcTrailers_wf enc p.trailer p.result)
+  refine ⟨?_, ?_, ?_⟩
+  · simp only [clientGrpc, hstatus, ne_eq, not_true_eq_false, if_false, hknown, hagree, Bool.not_true, Bool.false_eq_true,
+      hverdictH, hmergedS, hbody, hrecv, htr, hweb, hvc]
+    cases grpcErrorFromTrailer dec (grpcTrailers enc p.trailer p.result) <;> simp
+  · intro hr
+    rw [hr] at hvc
+    simp only [clientGrpc, hstatus, ne_eq, not_true_eq_false, if_false, hknown, hagree, Bool.not_true, Bool.false_eq_true,
+      hverdictH, hmergedS, hbody, hrecv, htr, hweb, hvc, hr, grpc_ok_trailer]
+    simp
+  · intro e hr h0 h32
+    rw [hr] at hvc
+    simp only [clientGrpc, hstatus, ne_eq, not_true_eq_false, if_false, hknown, hagree, Bool.not_true, Bool.false_eq_true,
+      hverdictH, hmergedS, hbody, hrecv, htr, hweb, hvc, hr, grpc_error_roundtrip enc dec hc p.trailer e h0 h32]
+    exact ⟨_, rfl⟩
+
+/-- **connect_stream_call_roundtrip**: the same for a streaming Connect call: messages intact and
+    in order under any agreed response compression, then the handler's outcome. -/
+theorem connect_stream_call_roundtrip (c : HConn) (cfg : CCfg) (p : HProg)
+    (hproto : cfg.proto = .connect) (hmax : cfg.max = 0) (hl : ∀ z, c.pool = some z → C01.CompLaws z)
+    (hknown : encodingKnown cfg ((serveConnectStream c p).header.get Gen.hdrConnectStreamEncoding) = true)
+    (hagree : encodingPool cfg ((serveConnectStream c p).header.get Gen.hdrConnectStreamEncoding) = c.pool) :
+    (clientConnectStream cfg (serveConnectStream c p)).msgs = p.sends ∧
+    (p.result = none → (clientConnectStream cfg (serveConnectStream c p)).result = none) ∧
+    (∀ e, p.result = some (.coded e) → e.code ≠ 0 →
+      ∃ md, (clientConnectStream cfg (serveConnectStream c p)).result =
+        some { code := e.code, msg := e.msg, details := e.details, md := md }) := by
+  have hstatus : (serveConnectStream c p).status = 200 := rfl
+  refine ⟨?_, ?_, ?_⟩
+  · simp only [clientConnectStream, hstatus, ne_eq, not_true_eq_false, if_false, hknown, hagree, Bool.not_true, Bool.false_eq_true]
+    simp only [serveConnectStream, recvItems_msgFrames cfg c hmax hl]
+    cases p.result <;> simp [recvItems, hproto, toWire, wireOf] <;> split <;> simp
+  · intro hr
+    simp only [clientConnectStream, hstatus, ne_eq, not_true_eq_false, if_false, hknown, hagree, Bool.not_true, Bool.false_eq_true]
+    simp only [serveConnectStream, recvItems_msgFrames cfg c hmax hl, hr]
+    simp [recvItems, hproto]
+  · intro e hr h0
+    simp only [clientConnectStream, hstatus, ne_eq, not_true_eq_false, if_false, hknown, hagree, Bool.not_true, Bool.false_eq_true]
+    simp only [serveConnectStream, recvItems_msgFrames cfg c hmax hl, hr, toWire, wireOf]
+    simp only [recvItems, hproto, if_true, List.append_nil, fixCode, h0, if_false]
+    exact ⟨_, rfl⟩
+
 /-- **never_success**: in every protocol a handler error yields an error item on the wire —
     the end-of-stream envelope carries it (Connect streaming), the status is non-2xx (Connect
     unary, above), the trailers carry a non-OK status (gRPC, `grpc_error_roundtrip`). -/
@@ -175,4 +377,194 @@ theorem handler_ctx_error_classification :
 /-! non-vacuity -/
 example : ∃ e : CErr, e.code ≠ 0 ∧ e.code < 2 ^ 32 := ⟨{ code := 5, msg := [37, 0], details := [[1]], md := [] }, by decide, by decide⟩
 
+/-! ### gRPC-Web: the trailers travel as an HTTP/1 header block inside the body -/
+
+/-- bytes that an HTTP/1 header block leaves alone wherever they stand -/
+def Graphic (v : Bytes) : Prop := ∀ c ∈ v, 33 ≤ c.toNat ∧ c.toNat ≤ 126
+
+theorem sanitize_graphic (v : Bytes) (h : Graphic v) : sanitizeValue v = v := by
+  apply sanitize_clean_core
+  refine ⟨fun c hc => ?_, fun c hc => ?_, fun c hc => ?_⟩
+  · have := h c hc; omega
+  · have := h c (List.mem_of_mem_head? hc); simp [isOWS]; omega
+  · have := h c (List.mem_of_mem_getLast? hc); simp [isOWS]; omega
+
+theorem b64Char_graphic (n : Nat) (h : n < 64) : 33 ≤ (b64Char n).toNat ∧ (b64Char n).toNat ≤ 126 := by
+  unfold b64Char
+  split
+  · simp [UInt8.toNat_ofNat']; omega
+  · split
+    · simp [UInt8.toNat_ofNat']; omega
+    · split
+      · simp [UInt8.toNat_ofNat']; omega
+      · split <;> decide
+
+theorem b64EncodeRaw_graphic : ∀ (b : Bytes), Graphic (b64EncodeRaw b)
+  | [] => by simp [b64EncodeRaw, Graphic]
+  | [a] => by
+    have := a.toNat_lt
+    intro c hc
+    simp only [b64EncodeRaw, List.mem_cons, List.mem_nil_iff, or_false] at hc
+    rcases hc with rfl | rfl <;> apply b64Char_graphic <;> omega
+  | [a, b] => by
+    have := a.toNat_lt; have := b.toNat_lt
+    intro c hc
+    simp only [b64EncodeRaw, List.mem_cons, List.mem_nil_iff, or_false] at hc
+    rcases hc with rfl | rfl | rfl <;> apply b64Char_graphic <;> omega
+  | a :: b :: c :: rest => by
+    have := a.toNat_lt; have := b.toNat_lt; have := c.toNat_lt
+    intro x hx
+    simp only [b64EncodeRaw, List.mem_cons] at hx
+    rcases hx with rfl | rfl | rfl | rfl | hx
+    · apply b64Char_graphic; omega
+    · apply b64Char_graphic; omega
+    · apply b64Char_graphic; omega
+    · apply b64Char_graphic; omega
+    · exact b64EncodeRaw_graphic rest x hx
+
+theorem showDec_graphic (n : Nat) : Graphic (showDec n) := by
+  intro c hc
+  have := showDec_all_digits n c hc
+  simp [isDigit] at this
+  omega
+
+
+theorem sanitizeBlock_vals (h : Header) (k : Bytes) : (sanitizeBlock h).vals k = (h.vals k).map sanitizeValue := by
+  induction h with
+  | nil => rfl
+  | cons p rest ih =>
+    obtain ⟨k', vs⟩ := p
+    simp only [sanitizeBlock, List.map_cons, Header.vals] at ih ⊢
+    by_cases hk : k = k'
+    · simp [hk]
+    · simp only [hk, if_false]; exact ih
+
+theorem sanitizeBlock_get (h : Header) (k : Bytes) : (sanitizeBlock h).get k = sanitizeValue ((h.get k)) := by
+  simp only [Header.get, sanitizeBlock_vals]
+  cases h.vals k with
+  | nil => simp [sanitizeValue]
+  | cons v vs => simp
+
+theorem sanitizeBlock_wf (h : Header) (hw : h.wf) : (sanitizeBlock h).wf := by
+  unfold Header.wf sanitizeBlock at *
+  have : List.map (fun x => x.1) (List.map (fun p : Bytes × List Bytes => (p.1, p.2.map sanitizeValue)) h) = List.map (fun x => x.1) h := by
+    rw [List.map_map]; rfl
+  rw [this]; exact hw
+
+/-- the verdict on any trailer map that carries the status digits and the binary status -/
+theorem verdict_of_gets (enc : WireErr → Bytes) (dec : Bytes → Option WireErr) (hc : StatusCodec enc dec)
+    (T : Header) (w : WireErr) (h0 : w.code ≠ 0) (h32 : w.code < 2 ^ 32)
+    (hS : T.get Gen.hdrGrpcStatus = showDec w.code) (hD : T.get Gen.hdrGrpcDetails = detailsBin enc w) :
+    grpcErrorFromTrailer dec T = .serverErr w := by
+  have hne : enc w ≠ [] := hc.nonempty _ h0
+  have hb : detailsBin enc w ≠ [] := b64EncodeRaw_ne_nil _ hne
+  simp only [grpcErrorFromTrailer, hS, hD, showDec_ne_nil, if_false, parseUint32_showDec _ h32, h0]
+  rw [if_neg hb]
+  simp only [detailsBin, C18.binary_header_roundtrip, hc.roundtrip, h0, if_false]
+
+
+theorem grpcTrailers_get_status (enc : WireErr → Bytes) (t : Header) (e : CErr) :
+    (grpcTrailers enc t (some (.coded e))).get Gen.hdrGrpcStatus = showDec e.code := by
+  obtain ⟨d1, d2, _⟩ := hdr_keys_distinct
+  simp only [grpcTrailers, toWire, wireOf]
+  rw [Header.get_set_ne _ _ _ _ d2, Header.get_set_ne _ _ _ _ d1, Header.get_set]
+
+theorem grpcTrailers_get_details (enc : WireErr → Bytes) (t : Header) (e : CErr) :
+    (grpcTrailers enc t (some (.coded e))).get Gen.hdrGrpcDetails =
+      detailsBin enc { code := e.code, msg := e.msg, details := e.details } := by
+  simp only [grpcTrailers, toWire, wireOf]
+  rw [Header.get_set]
+
+theorem grpcTrailers_get_status_ok (enc : WireErr → Bytes) (t : Header) :
+    (grpcTrailers enc t none).get Gen.hdrGrpcStatus = [48] := by
+  obtain ⟨d1, _, _⟩ := hdr_keys_distinct
+  simp only [grpcTrailers]
+  rw [Header.get_set_ne _ _ _ _ d1, Header.get_set]
+
+/-- **grpcweb_call_roundtrip**: a gRPC-Web handler sends at least one message and finishes; its
+    trailers go through the HTTP/1 header block of the trailer frame (values are trimmed and
+    CR/LF become blanks there) and the client still recovers exactly the messages, then success
+    or the handler's code, *byte-identical* message and details — because the binary status
+    survives the block unchanged and wins over the `Grpc-Message` header. -/
+theorem grpcweb_call_roundtrip (enc : WireErr → Bytes) (dec : Bytes → Option WireErr) (hc : StatusCodec enc dec)
+    (c : HConn) (cfg : CCfg) (p : HProg)
+    (hproto : cfg.proto = .grpcWeb) (hmax : cfg.max = 0) (hl : ∀ z, c.pool = some z → C01.CompLaws z)
+    (hknown : encodingKnown cfg ((serveGrpc enc true c p).header.get Gen.hdrGrpcEncoding) = true)
+    (hagree : encodingPool cfg ((serveGrpc enc true c p).header.get Gen.hdrGrpcEncoding) = c.pool)
+    (hH : p.header.wf) (hHs : p.header.vals Gen.hdrGrpcStatus = []) (hne : p.sends ≠ []) :
+    (clientGrpc dec cfg (serveGrpc enc true c p)).msgs = p.sends ∧
+    (p.result = none → (clientGrpc dec cfg (serveGrpc enc true c p)).result = none) ∧
+    (∀ e, p.result = some (.coded e) → e.code ≠ 0 → e.code < 2 ^ 32 →
+      ∃ md, (clientGrpc dec cfg (serveGrpc enc true c p)).result =
+        some { code := e.code, msg := e.msg, details := e.details, md := md }) := by
+  have hstatus : (serveGrpc enc true c p).status = 200 := by simp [serveGrpc, hne]
+  have hbody : (serveGrpc enc true c p).body =
+      p.sends.map (msgFrame c) ++ [.webTrailer (sanitizeBlock (grpcTrailers enc p.trailer p.result))] := by
+    simp [serveGrpc, hne]
+  have n1 : Gen.hdrGrpcStatus ≠ Gen.hdrContentType := by decide
+  have n2 : Gen.hdrGrpcStatus ≠ Gen.hdrGrpcAcceptEncoding := by decide
+  have n3 : Gen.hdrGrpcStatus ≠ Gen.hdrGrpcEncoding := by decide
+  have hvalsS : (serveGrpc enc true c p).header.vals Gen.hdrGrpcStatus = [] := by
+    simp only [serveGrpc, if_true, hne, if_false, vals_mergeHeaders _ _ hH, hHs]
+    split <;> simp [Header.vals, n1, n2, n3]
+  have hgetS : (serveGrpc enc true c p).header.get Gen.hdrGrpcStatus = [] := by simp [Header.get, hvalsS]
+  have hverdictH : grpcErrorFromTrailer dec (serveGrpc enc true c p).header = .missing := by
+    simp only [grpcErrorFromTrailer, hgetS, if_true]
+  have hw : (serveGrpc enc true c p).header.wf := by
+    simp only [serveGrpc, if_true, hne, if_false]
+    apply mergeHeaders_wf
+    split <;> simp [Header.wf] <;> decide
+  have hmergedS : (mergeHeaders [] (serveGrpc enc true c p).header).get Gen.hdrGrpcStatus = [] := by
+    simp only [Header.get, vals_copy _ hw]; exact hgetS
+  have hweb : cfg.proto = Proto.grpcWeb := hproto
+  let T := sanitizeBlock (sanitizeBlock (grpcTrailers enc p.trailer p.result))
+  have hrecv : recvItems cfg c.pool (p.sends.map (msgFrame c) ++
+      [.webTrailer (sanitizeBlock (grpcTrailers enc p.trailer p.result))]) = (p.sends, .webTrailer T) := by
+    rw [recvItems_msgFrames cfg c hmax hl]
+    simp [recvItems, hproto, T]
+  have hTwf : T.wf := sanitizeBlock_wf _ (sanitizeBlock_wf _ (grpcTrailers_wf enc p.trailer p.result))
+  have hvc := verdict_copy dec T hTwf
+  have hTget : ∀ k, T.get k = sanitizeValue (sanitizeValue ((grpcTrailers enc p.trailer p.result).get k)) := by
+    intro k; simp only [T, sanitizeBlock_get]
+  refine ⟨?_, ?_, ?_⟩
+  · simp only [clientGrpc, hstatus, ne_eq, not_true_eq_false, if_false, hknown, hagree, Bool.not_true, Bool.false_eq_true,
+      hverdictH, hmergedS, hbody, hrecv, hweb, hvc]
+    cases grpcErrorFromTrailer dec T <;> simp
+  · intro hr
+    have hok : grpcErrorFromTrailer dec T = .ok := by
+      have hS : T.get Gen.hdrGrpcStatus = [48] := by
+        rw [hTget, hr, grpcTrailers_get_status_ok]
+        rw [sanitize_graphic [48] (by intro c hc; simp at hc; subst hc; decide),
+            sanitize_graphic [48] (by intro c hc; simp at hc; subst hc; decide)]
+      have hp : parseUint32 [48] = some 0 := by decide
+      have hne' : ¬ (([48] : Bytes) = []) := by simp
+      simp only [grpcErrorFromTrailer, hS, hp, hne', if_false, if_true]
+    simp only [clientGrpc, hstatus, ne_eq, not_true_eq_false, if_false, hknown, hagree, Bool.not_true, Bool.false_eq_true,
+      hverdictH, hmergedS, hbody, hrecv, hweb, hvc, hok]
+    simp
+  · intro e hr h0 h32
+    have hv : grpcErrorFromTrailer dec T = .serverErr { code := e.code, msg := e.msg, details := e.details } := by
+      apply verdict_of_gets enc dec hc T _ h0 h32
+      · rw [hTget, hr, grpcTrailers_get_status, sanitize_graphic _ (showDec_graphic _), sanitize_graphic _ (showDec_graphic _)]
+      · rw [hTget, hr, grpcTrailers_get_details]
+        have hg : Graphic (detailsBin enc { code := e.code, msg := e.msg, details := e.details }) := b64EncodeRaw_graphic _
+        rw [sanitize_graphic _ hg, sanitize_graphic _ hg]
+    simp only [clientGrpc, hstatus, ne_eq, not_true_eq_false, if_false, hknown, hagree, Bool.not_true, Bool.false_eq_true,
+      hverdictH, hmergedS, hbody, hrecv, hweb, hvc, hv]
+    exact ⟨_, rfl⟩
+
+/-! non-vacuity: the hypotheses of the composed theorems hold for the harness' own RLE
+    compressor with a threshold, on a call that sends a compressed and an uncompressed message -/
+def exConn : HConn :=
+  { proto := .grpc, kind := .server, contentType := [97], names := [114, 108, 101], respCompression := [114, 108, 101],
+    pool := some rleCompressor, minBytes := 2 }
+def exCfg : CCfg := { proto := .grpc, kind := .server, accepts := [[114, 108, 101]], pool := rleCompressor, max := 0 }
+def exProg : HProg := { header := [], trailer := [], sends := [[1, 1, 1], [2]], result := none }
+
+example (enc : WireErr → Bytes) (dec : Bytes → Option WireErr) (hc : StatusCodec enc dec) :
+    (clientGrpc dec exCfg (serveGrpc enc false exConn exProg)).msgs = [[1, 1, 1], [2]] ∧
+    (clientGrpc dec exCfg (serveGrpc enc false exConn exProg)).result = none := by
+  have h := grpc_call_roundtrip_compressed enc dec hc exConn exCfg exProg rfl rfl
+    (fun z hz => by cases hz; exact rle_laws) (by rfl) (by rfl) (by simp [exProg, Header.wf]) rfl
+  exact ⟨h.1, h.2.1 rfl⟩
 end ConnectModel.C02
